@@ -129,6 +129,23 @@ def gen_order(rng, pid):
     lines.append("end")
     return "\n".join(lines)
 
+def gen_condmany(rng, pid):
+    """many waiters with distinct priorities on one condition, in an arrival order unrelated to priority"""
+    nw = rng.randint(5, 10)
+    prios = list(range(nw)); rng.shuffle(prios)
+    lines = ["prog %d" % pid, "cap res=1 pool=1 buf=2 oq=1 pq=1 bufunit=0"]
+    for p in range(1, nw + 1):
+        lines.append("proc %d %d 1 : hold %d ; cwait %d ; hold 1" % (p, prios[p - 1], rng.randint(0, 2), rng.choice([0, 0, 1, 1, 2])))
+    sig = ["hold 3"]
+    if rng.random() < 0.4: sig = ["csub 0", "acq 1", "hold 3"]
+    for _ in range(rng.randint(1, 3)):
+        sig += [rng.choice(["setflag 0 1", "setflag 1 1", "setflag 0 0", "setflag 1 0"]), rng.choice(["csig", "csig", "hold 0"])]
+    if sig[0] == "csub 0": sig += ["rel 1", "hold 1"]
+    sig += ["setflag 0 1", "setflag 1 1", "csig"]
+    lines.append("proc %d 0 1 : %s" % (nw + 1, " ; ".join(sig[:12])))
+    lines.append("end")
+    return "\n".join(lines)
+
 def gen_longrec(rng, pid):
     """a recorded history long enough to make the sample arrays grow (1024, 2048 samples)"""
     o, body = rng.choice([(1, ["acq 1", "hold 1", "rel 1", "hold %d" % rng.randint(0, 2)]),
@@ -146,6 +163,11 @@ def main():
         rng = random.Random(seed * 104729 + 5)
         for i in range(count):
             print(gen_order(rng, i + 1))
+        return
+    if profile == "condmany":
+        rng = random.Random(seed * 15485863 + 11)
+        for i in range(count):
+            print(gen_condmany(rng, i + 1))
         return
     if profile == "longrec":
         rng = random.Random(seed * 7919 + 17)
